@@ -27,6 +27,13 @@ def widths(rng, n, family, maxratio=50.0):
         w = np.concatenate([h, h[:n // 2][::-1]])
     elif family == 'wild':
         w = np.exp(rng.uniform(0, math.log(1e6), n))
+    elif family == 'thinend':
+        w = np.exp(rng.uniform(0, math.log(3.0), n))
+        which = int(rng.integers(0, 3))
+        if which in (0, 2):
+            w[0] = w[0] * 10 ** rng.uniform(-7, -4)
+        if which in (1, 2) and n > 1:
+            w[-1] = w[-1] * 10 ** rng.uniform(-7, -4)
     elif family == 'jitter':       # almost uniform: relative irregularity 1e-7 .. 1e-5
         w = 1.0 + 10 ** rng.uniform(-7, -5) * rng.uniform(-1, 1, n)
     elif family == 'smooth':
@@ -68,14 +75,14 @@ def axis_faces(rng, kind, n, family, opts=None):
         L = float(np.exp(rng.uniform(math.log(0.2), math.log(5.0))))
         x0 = 0.0 if rng.random() < 0.5 else float(rng.uniform(-3, 3))
         if opts.get('x0') == 'offset':
-            x0 = float(rng.choice([-1.0, 1.0]) * 10 ** rng.uniform(3, 5))
+            x0 = float(rng.choice([-1.0, 1.0]) * 10 ** rng.uniform(3, 6.5))
         elif opts.get('x0') == 'negative':
             x0 = -L - float(rng.uniform(0.1, 4.0))
     elif kind == 'rad':
         L = float(np.exp(rng.uniform(math.log(0.2), math.log(5.0))))
         r0mode = opts.get('r0', 'any')
         if opts.get('x0') == 'offset':
-            x0 = float(10 ** rng.uniform(3, 5))
+            x0 = float(10 ** rng.uniform(3, 6.5))
         elif r0mode == 'zero' or (r0mode == 'any' and rng.random() < 0.4):
             x0 = 0.0
         else:
@@ -127,6 +134,8 @@ def geo_opts(rng, geo):
         return None, {'x0': 'negative'}
     if geo == 'wild':            # neighbouring cells differing by up to 1e6 in width
         return 'wild', {}
+    if geo == 'thinend':         # wall-refined grid: the first and/or last cell 1e-7..1e-4 of the others (also next to r = 0 / a pole)
+        return 'thinend', {'r0': 'zero' if rng.random() < 0.5 else 'any', 'pol': str(rng.choice(['full', 'north', 'south', 'inner']))}
     return None, {}
 
 
